@@ -36,6 +36,7 @@ var c17Hosts = []string{
 }
 
 var c17Ports = []string{"", ":0", ":1", ":80", ":8448", ":65535", ":65536", ":99999", ":100000", ":00080", ":0000000000000000000080", ":065535", ":0065536",
+	":00", ":01", ":080", ":0080", ":08448", ":00000", ":000000", ":000080", ":008448", ":000001", ":0000065535", ":09999", ":099999", ":65535 ", ":12345", ":123456",
 	":", ":+80", ":-1", ": 80", ":80 ", ":8a", ":a", ":0x50", ":8_0", ":18446744073709551616", ":٣", ":80:80", ":80:", "::80", ":65535:1", ":1:65536"}
 
 func (g *c17Gen) pick(l []string) string { return l[g.c.Rng.Intn(len(l))] }
@@ -158,6 +159,9 @@ func (g *c17Gen) host() string {
 func (g *c17Gen) port() string {
 	if g.c.Rng.Intn(3) == 0 {
 		return g.pick(c17Ports)
+	}
+	if g.c.Rng.Intn(5) == 0 { // zero-padded to 2..7 digits: five is the limit
+		return ":" + fmt.Sprintf("%0*d", 2+g.c.Rng.Intn(6), g.c.Rng.Intn(70000))
 	}
 	if g.c.Rng.Intn(2) == 0 {
 		return ""
@@ -670,34 +674,44 @@ func genC17Limits(c *Ctx, g *c17Gen) {
 		// field, whatever order the checks are made in
 		long, longcp, bytesOnly := rep("a", 256), rep("é", 256), rep("é", 130)
 		vals := []string{"", bytesOnly, long, longcp}
+		// fifth value of the sender axis: a sender that is not a user ID (no sigil, no domain,
+		// empty, another sigil) - refused whatever the sizes of the other fields (F100)
+		malformed := []string{"", "garbage", "u:x", "@u", "!u:x", ":", "@", rep("é", 130)}
 		full := c.Thorough() || v == "1" || v == "10" || v == "12" || v == "org.matrix.msc4014"
-		for ci := 1; ci < 256; ci++ {
-			combo := [4]string{vals[ci&3], vals[(ci>>2)&3], vals[(ci>>4)&3], vals[(ci>>6)&3]}
+		for ci := 1; ci < 320; ci++ {
+			ti, ki, ri, si := ci&3, (ci>>2)&3, (ci>>4)&3, ci>>6
 			if !full && c.Rng.Intn(4) != 0 {
 				continue
 			}
 			f := base
-			if combo[0] != "" {
-				f.typ = combo[0]
+			if ti != 0 {
+				f.typ = vals[ti]
 			}
-			if combo[1] != "" {
-				k := combo[1]
+			if ki != 0 {
+				k := vals[ki]
 				f.sk = &k
 			}
-			if combo[2] != "" {
-				f.sender = "@" + combo[2] + ":x"
+			switch {
+			case si == 4:
+				f.sender = malformed[ci%len(malformed)]
+			case si != 0:
+				f.sender = "@" + vals[si] + ":x"
 			}
-			if combo[3] != "" {
-				f.room = "!" + combo[3] + ":x"
+			if ri != 0 {
+				f.room = "!" + vals[ri] + ":x"
+			}
+			what := "combination"
+			if si == 4 {
+				what = "combination malformed sender"
 			}
 			j, _ := c17EventJSON(f)
-			c.Run("C17.receive", [][]byte{B(v), j}, "C17.receive", "C17.prop.receive", "receive "+v+" combination")
+			c.Run("C17.receive", [][]byte{B(v), j}, "C17.receive", "C17.prop.receive", "receive "+v+" "+what)
 			hasSK, sk := "0", ""
 			if f.sk != nil {
 				hasSK, sk = "1", *f.sk
 			}
-			c.Run("C17.build", Args(v, f.typ, hasSK, sk, f.sender, f.room, ""), "C17.build", "C17.prop.build", "build "+v+" combination")
-			c.Count("receive/combination")
+			c.Run("C17.build", Args(v, f.typ, hasSK, sk, f.sender, f.room, ""), "C17.build", "C17.prop.build", "build "+v+" "+what)
+			c.Count("receive/" + what)
 		}
 		// create events (v12: no room ID allowed on build, none needed on receipt)
 		cr := base
